@@ -1802,6 +1802,7 @@ func ruleAtomAlg(p *Prog, r *Result) {
 	sort.Slice(opVals, func(i, j int) bool { return opVals[i] < opVals[j] })
 	var unsound, loose, errs, open2 []string
 	strictLoose := map[string][]string{}
+	var mgetLoose []string
 	n := 0
 	for _, ov := range opVals {
 		on := ops[ov]
@@ -1918,7 +1919,7 @@ func ruleAtomAlg(p *Prog, r *Result) {
 					}
 					return false, false, false
 				}
-				bad, extra := "", ""
+				bad, extra, falseIn := "", "", ""
 				ill := false
 				for _, pc := range probes[g.sig(nsym)] {
 					inRes, ok := memberOfScan(pc, res[0], sc, nsym)
@@ -1932,6 +1933,9 @@ func ruleAtomAlg(p *Prog, r *Result) {
 					}
 					if known && !pinned && inRes && extra == "" {
 						extra = fmt.Sprintf("key %q", pc.rep[nsym])
+					}
+					if known && !truth && inRes && falseIn == "" {
+						falseIn = fmt.Sprintf("key %q", pc.rep[nsym])
 					}
 				}
 				kind, _, _ := it.decodeScanKind(res[0], sc)
@@ -1947,10 +1951,19 @@ func ruleAtomAlg(p *Prog, r *Result) {
 					for _, pc := range probes[g.sig(nsym)] {
 						inRes, ok := memberOfScan(pc, res[0], sc, nsym)
 						if ok && inRes && pc.rank[nsym] == pc.rank[lits[0]] {
-							strictLoose[on] = append(strictLoose[on], fmt.Sprintf("%s -> %s reads the boundary key %q", desc, it.showScanRep(res[0], kind, g), pc.rep[nsym]))
+							// the empty literal is its own case: `key < ''` is unsatisfiable on its face (planned
+							// EMPTY), which the inclusive planning of the other literals does not touch
+							onKey := on
+							if pc.rep[lits[0]] == "" {
+								onKey = on + "|empty-literal|" + sh.left + " op " + sh.right
+							}
+							strictLoose[onKey] = append(strictLoose[onKey], fmt.Sprintf("%s -> %s reads the boundary key %q", desc, it.showScanRep(res[0], kind, g), pc.rep[nsym]))
 							break
 						}
 					}
+				}
+				if falseIn != "" && kind == "MGET" {
+					mgetLoose = append(mgetLoose, fmt.Sprintf("%s -> %s holds %s, on which the atom is false", desc, it.showScanRep(res[0], kind, g), falseIn))
 				}
 				if extra != "" && on != "NotEq" {
 					loose = append(loose, fmt.Sprintf("%s -> %s reads %s outside the pinned region", desc, it.showScanRep(res[0], kind, g), extra))
@@ -1969,11 +1982,13 @@ func ruleAtomAlg(p *Prog, r *Result) {
 	r.add(len(errs) == 0, "optimizeExpr|interpretable", p.Pos(fn.Pos()), fmt.Sprintf("%d atom configurations evaluated; %d outside the abstract domain %v", n, len(errs), head(errs, 3)))
 	r.add(len(unsound) == 0, "optimizeExpr|sound", p.Pos(fn.Pos()), fmt.Sprintf("the region of an atom contains every key on which the atom can be true, in all %d configurations; %d counter-configurations %v", n, len(unsound), head(unsound, 4)))
 	r.add(len(loose) == 0, "optimizeExpr|tight", p.Pos(fn.Pos()), fmt.Sprintf("key-pinning atoms read nothing outside the pinned region and use point reads for equality and IN, in all %d configurations; %d counter-configurations %v", n, len(loose), head(loose, 4)))
-	for _, on := range []string{"Gt", "Lt"} {
+	for _, on := range []string{"Gt", "Lt", "Gt|empty-literal|K op S", "Gt|empty-literal|S op K", "Lt|empty-literal|K op S", "Lt|empty-literal|S op K"} {
 		sl := strictLoose[on]
 		sort.Strings(sl)
 		r.add(len(sl) == 0, "optimizeExpr|strict|"+on, p.Pos(fn.Pos()), fmt.Sprintf("the region of a strict comparison (%s) leaves the boundary key out; %d counter-configurations %v", on, len(sl), head(sl, 2)))
 	}
+	sort.Strings(mgetLoose)
+	r.add(len(mgetLoose) == 0, "optimizeExpr|mget-exact", p.Pos(fn.Pos()), fmt.Sprintf("a point-read key set holds only keys on which the atom can be true (a DELETE whose clause is planned as point reads removes the set without evaluating the clause); %d counter-configurations %v", len(mgetLoose), head(mgetLoose, 3)))
 	r.add(len(open2) == 0, "optimizeExpr|closed", p.Pos(fn.Pos()), fmt.Sprintf("no atom yields a range open on both sides or with start > end (the algebra's domain leaves them out); %d counter-configurations %v", len(open2), head(open2, 3)))
 	r.floor("atom configurations evaluated", n, 500)
 }
